@@ -129,6 +129,11 @@ let handle (x : sx) : string =
       let q_of = function L [a; b] -> { qnum = z_of_int (int_of_string (atom a)); qden = pos_of_int (int_of_string (atom b)) } | _ -> failwith "q" in
       let (a, (b, c)) = run_jitter (q_of p) (q_of tol) (List.map q_of ts) in
       Printf.sprintf "COUNT %d | OFFCOUNT %d | SPEC %d" (int_of_nat a) (int_of_nat b) (int_of_nat c)
+  | L [A "supp"; stl; f] ->
+      let f = formula_of_sx f in
+      let pf = run_pastify (atom stl = "stl") f in
+      let b k g = show_bool (run_supported (nat_of_int k) g) in
+      Printf.sprintf "SUPP %s %s %s %s | PSUPP %s %s | BF %s" (b 0 f) (b 1 f) (b 2 f) (b 3 f) (b 1 pf) (b 3 pf) (show_bool (run_bounded_future f))
   | L [A "info"; f] ->
       let f = formula_of_sx f in
       Printf.sprintf "HOR %d | BF %s | PAST %s | ISBOOL %s" (int_of_nat (run_hor f)) (show_bool (run_bounded_future f))
